@@ -187,7 +187,7 @@ func (w *c43World) write(path string, rng *rand.Rand, mode os.FileMode) {
 var ageDeltas = []struct {
 	name string
 	d    time.Duration
-}{{"-10d", -10 * day}, {"-1d", -day}, {"-1h", -time.Hour}, {"+1h", time.Hour}, {"+1d", day}, {"+10d", 10 * day}}
+}{{"-45d", -45 * day}, {"-20d", -20 * day}, {"-10d", -10 * day}, {"-1d", -day}, {"-1h", -time.Hour}, {"+1h", time.Hour}, {"+1d", day}, {"+10d", 10 * day}}
 
 func buildWorld(dir string, rng *rand.Rand) *c43World {
 	w := &c43World{dir: dir, data: filepath.Join(dir, "mutagen-data"), canary: filepath.Join(dir, "canary"),
@@ -365,7 +365,7 @@ func c43() {
 	r := vk.Start("C43", "exploration")
 	n := r.Pick(48, 600)
 	scratch := r.Scratch()
-	r.Assume("ages are threshold ± {1 h, 1 d, 10 d}: never closer than one hour, so clock drift during the run is irrelevant")
+	r.Assume("ages are threshold ± {1 h, 1 d, 10 d} plus threshold - {20 d, 45 d} (time stamps in the future, which are more recent than any threshold and must be kept): never closer than one hour, so clock drift during the run is irrelevant")
 	r.Assume("symbolic links whose target is stale, dangling links and agent directories without an executable are not judged (either outcome is accepted); only their targets must stay untouched")
 	r.Assume("old files elsewhere in the data directory (sessions, archives, daemon, …) are not housekeeping artifacts and must be kept")
 	parallel(n, workerCount(), func(i int) {
